@@ -1,10 +1,13 @@
 #!/bin/bash
-# usage: tools/seedcheck.sh <patch.diff> — applies the patch to /repo's working tree, runs every check (no evidence),
-# prints which obligations fire, and restores /repo.
-P=$1
+# usage: tools/seedcheck.sh <patch.diff> — applies the patch to a scratch copy of /repo's working tree (outside /repo and
+# /verif, removed afterwards), runs every check on it (no evidence) and prints which obligations fire.
+# (Equivalent to `git -C /repo apply <patch>; checks; git -C /repo checkout -- .`, but safe to run next to other jobs that
+# read /repo.)
+P=$(readlink -f "$1")
 cd /verif
-if ! git -C /repo apply --check "$P" 2>/dev/null; then echo "PATCH DOES NOT APPLY: $P"; exit 2; fi
-git -C /repo apply "$P"
-bin/arcacheck -repo /repo -property all -no-evidence 2>&1 | grep "VIOLATED\|UNDECIDED" | awk '{print $1, $2, $3}' | sort -u
-git -C /repo checkout -- . 
-git -C /repo status --short | head -3
+D=$(mktemp -d /tmp/seedchk.XXXXXX)
+trap 'rm -rf "$D"' EXIT
+rsync -a --exclude .git /repo/ "$D"/
+if ! (cd "$D" && git init -q . 2>/dev/null && git apply --check "$P" 2>/dev/null); then echo "PATCH DOES NOT APPLY: $P"; exit 2; fi
+(cd "$D" && git apply "$P" && rm -rf .git)
+bin/arcacheck -repo "$D" -verif /verif -property all -no-evidence 2>&1 | grep "VIOLATED\|UNDECIDED" | awk '{print $1, $2, $3}' | sort -u
